@@ -4,7 +4,9 @@ use oxidd::{BooleanFunction, Edge, Function, HasLevel, HasWorkers, InnerNode, Ma
 use oxidd_core::Countable;
 use oxidd_core::function::{EdgeOfFunc, INodeOfFunc, TermOfFunc};
 
-use crate::tt::Tt;
+use crate::tt::{BOp, Quant, Tt};
+use oxidd::Subst;
+use oxidd::util::AllocResult;
 
 #[derive(Clone, Copy, PartialEq, Eq, Debug)]
 pub enum Sem {
@@ -26,6 +28,45 @@ pub trait BoolKind: Sized + 'static {
     fn new_manager(nodes: usize, cache: usize, threads: u32) -> MRefOf<Self>;
     /// Boolean value of a terminal node (ignoring edge tags)
     fn term<'id>(t: &TermOfFunc<'id, Self::F>) -> bool;
+
+    /// quantification / substitution (BDD, BCDD only)
+    const HAS_QUANT: bool = false;
+    fn quant(_q: Quant, _f: &Self::F, _vars: &Self::F) -> AllocResult<Self::F> {
+        unreachable!()
+    }
+    fn apply_quant(_q: Quant, _op: BOp, _f: &Self::F, _g: &Self::F, _vars: &Self::F) -> AllocResult<Self::F> {
+        unreachable!()
+    }
+    fn substitute(_f: &Self::F, _s: &Subst<Self::F>) -> AllocResult<Self::F> {
+        unreachable!()
+    }
+    fn rule() -> crate::audit::Rule;
+}
+
+macro_rules! quant_impl {
+    () => {
+        const HAS_QUANT: bool = true;
+        fn quant(q: Quant, f: &Self::F, vars: &Self::F) -> AllocResult<Self::F> {
+            use oxidd::BooleanFunctionQuant;
+            match q {
+                Quant::Exists => f.exists(vars),
+                Quant::Forall => f.forall(vars),
+                Quant::Unique => f.unique(vars),
+            }
+        }
+        fn apply_quant(q: Quant, op: BOp, f: &Self::F, g: &Self::F, vars: &Self::F) -> AllocResult<Self::F> {
+            use oxidd::BooleanFunctionQuant;
+            match q {
+                Quant::Exists => f.apply_exists(op.to_oxidd(), g, vars),
+                Quant::Forall => f.apply_forall(op.to_oxidd(), g, vars),
+                Quant::Unique => f.apply_unique(op.to_oxidd(), g, vars),
+            }
+        }
+        fn substitute(f: &Self::F, s: &Subst<Self::F>) -> AllocResult<Self::F> {
+            use oxidd::FunctionSubst;
+            f.substitute(s)
+        }
+    };
 }
 
 pub struct Bdd;
@@ -42,6 +83,10 @@ impl BoolKind for Bdd {
     fn term<'id>(t: &TermOfFunc<'id, Self::F>) -> bool {
         *t == oxidd_rules_bdd::simple::BDDTerminal::True
     }
+    quant_impl!();
+    fn rule() -> crate::audit::Rule {
+        crate::audit::Rule::Bdd
+    }
 }
 impl BoolKind for Bcdd {
     const NAME: &'static str = "bcdd";
@@ -53,6 +98,10 @@ impl BoolKind for Bcdd {
     fn term<'id>(_t: &TermOfFunc<'id, Self::F>) -> bool {
         true
     }
+    quant_impl!();
+    fn rule() -> crate::audit::Rule {
+        crate::audit::Rule::Bcdd
+    }
 }
 impl BoolKind for Zbdd {
     const NAME: &'static str = "zbdd";
@@ -63,6 +112,9 @@ impl BoolKind for Zbdd {
     }
     fn term<'id>(t: &TermOfFunc<'id, Self::F>) -> bool {
         *t == oxidd_rules_zbdd::ZBDDTerminal::Base
+    }
+    fn rule() -> crate::audit::Rule {
+        crate::audit::Rule::Zbdd
     }
 }
 
